@@ -271,17 +271,17 @@ class ValueFlow(TlbScheme):
         if tag == b'\xb8\xe4\x8d\xfb':
             type_ = 'value_flow'
             ref1 = cell_slice.load_ref().begin_parse()
-            ref2 = cell_slice.load_ref().begin_parse()
             kwargs['from_prev_blk'], kwargs['to_next_blk'], kwargs['imported'], kwargs['exported'] = [CurrencyCollection.deserialize(ref1) for _ in range(4)]
             kwargs['fees_collected'] = CurrencyCollection.deserialize(cell_slice)
+            ref2 = cell_slice.load_ref().begin_parse()  # follows the reference of an extra currency dictionary in fees_collected
             kwargs['fees_imported'], kwargs['recovered'], kwargs['created'], kwargs['minted'] = [CurrencyCollection.deserialize(ref2) for _ in range(4)]
         elif tag == b'>\xbf\x98\xb7':
             type_ = 'value_flow_v2'
             ref1 = cell_slice.load_ref().begin_parse()
-            ref2 = cell_slice.load_ref().begin_parse()
             kwargs['from_prev_blk'], kwargs['to_next_blk'], kwargs['imported'], kwargs['exported'] = [CurrencyCollection.deserialize(ref1) for _ in range(4)]
             kwargs['fees_collected'] = CurrencyCollection.deserialize(cell_slice)
             kwargs['burned'] = CurrencyCollection.deserialize(cell_slice)
+            ref2 = cell_slice.load_ref().begin_parse()  # follows the references of extra currency dictionaries in fees_collected / burned
             kwargs['fees_imported'], kwargs['recovered'], kwargs['created'], kwargs['minted'] = [CurrencyCollection.deserialize(ref2) for _ in range(4)]
         else:
             raise BlockError(f'ValueFlow deserialization error unknown prefix tag: {tag}')
